@@ -137,6 +137,9 @@ func fileName(v efivar.Efivar) string {
 	return path.Join(attributes.Efivars, fmt.Sprintf("%s-%s", v.Name, v.GUID.Format()))
 }
 
+// reused receivers: one SignatureDatabase value per secure-boot variable that is read into again and again
+var reused [4]signature.SignatureDatabase
+
 func checkAll(e *efivarfs.Efivarfs, model map[int][]byte, step string) error {
 	for i, v := range vars {
 		want, written := model[i]
@@ -156,6 +159,13 @@ func checkAll(e *efivarfs.Efivarfs, model map[int][]byte, step string) error {
 		}
 		if secureBoot(i) {
 			if _, derr := esl.Decode(want); derr == nil {
+				// reading into a receiver that still holds the previous value replaces it
+				if err := e.GetVar(v, &reused[i]); err != nil {
+					return fmt.Errorf("%s: reading %s into a reused SignatureDatabase fails: %v", step, varNames[i], err)
+				}
+				if !bytes.Equal(reused[i].Bytes(), want) {
+					return fmt.Errorf("%s: %s read into a SignatureDatabase that held an earlier value gives %d bytes, the last value written has %d", step, varNames[i], len(reused[i].Bytes()), len(want))
+				}
 				var db *signature.SignatureDatabase
 				switch i {
 				case 0:
@@ -201,6 +211,7 @@ func checkCase(c Case) error {
 		store = store.With(m)
 	}
 	e := store.Open()
+	reused = [4]signature.SignatureDatabase{}
 	if err := checkAll(e, model, "initially"); err != nil {
 		return err
 	}
